@@ -313,6 +313,11 @@ func init() {
 				c.transcriptRule(p, "C04.domsep", "pure ML-DSA message M' = 0 ‖ len(ctx) ‖ ctx ‖ M ("+fn+")", f.AnonFuncs[0], nil, w, 1,
 					want)
 			}
+			// FIPS 204 5.2 / 5.3: a context of 255 bytes is the longest legal one and 256 the first illegal one, on
+			// both sides (the length is encoded in one byte)
+			c.mayAccept(p, "C04.strict", "a context of 255 bytes can be signed with", p.Func(pkg, "", "SignTo"), map[string]lat{"ctx": latSliceLen(255)})
+			c.evalAcceptRule(p, "C04.strict", "a context of 256 bytes is refused by SignTo", p.Func(pkg, "", "SignTo"), map[string]lat{"ctx": latSliceLen(256)}, nil, false)
+			c.mayAccept(p, "C04.strict", "a signature over a context of 255 bytes can verify", p.Func(pkg, "", "Verify"), map[string]lat{"ctx": latSliceLen(255)})
 			ip := pkg + "/internal"
 			sw := "(*internal/sha3.State).Write"
 			c.transcriptRule(p, "C04.domsep", "signing absorbs tr, then key ‖ rnd ‖ μ", p.Func(ip, "", "SignTo"), nil, sw, 1, []string{"param#0.tr", "param#0.key", "param#2", "local:[64]byte", "…"})
